@@ -294,6 +294,34 @@ func metricsEngine(rng *Rng, n int, out *Out, args map[string]string) {
 					out.Op(fmt.Sprintf("mt udpadd u=%d %s key=%s", nextID, addrField(f), hexs([]byte(key))), "ok")
 				}
 				out.Stat("op.burst", 1)
+				// a scrape at the same moment as closes (and opens): the clock stands still, so any
+				// serial order of the calls leaves the same totals
+				if len(udps) >= 2 && r.Chance(60) {
+					nrm := 1 + r.Intn(2)
+					victims := udps[len(udps)-nrm:]
+					udps = udps[:len(udps)-nrm]
+					wait2, release2 := barrier(nrm + 1)
+					var wg2 sync.WaitGroup
+					wg2.Add(1)
+					go func() { defer wg2.Done(); wait2(); reg.Gather() }()
+					for _, v := range victims {
+						wg2.Add(1)
+						go func(v *uconn) { defer wg2.Done(); wait2(); v.m.RemoveNatEntry() }(v)
+					}
+					release2()
+					wg2.Wait()
+					for _, v := range victims {
+						if v.form.ipKey != "" {
+							k := ival{v.form.ipKey, v.key}
+							if depth[k] > 0 {
+								depth[k]--
+							}
+						}
+						out.Op(fmt.Sprintf("mt udprm u=%d", v.id), "ok")
+					}
+					out.Op("mt scrapequiet", "ok")
+					out.Stat("op.scrape-vs-close", 1)
+				}
 			case roll < 68 && len(udps) > 0:
 				u := Pick(r, udps)
 				st := Pick(r, []string{"OK", "ERR_CIPHER", "ERR_ADDRESS_PRIVATE"})
